@@ -63,3 +63,27 @@ pub use message::Message;
 
 #[cfg(all(feature = "std", feature = "random"))]
 pub use mnemonic::generate_mnemonic_phrase;
+
+/// Verification hooks: both secp256k1 backends exposed side by side so that an external
+/// monitor can compare them inside one build. Off by default; adds no behaviour.
+#[cfg(feature = "verif-hooks")]
+pub mod verif_hooks {
+    /// The portable (`no_std`) backend.
+    pub mod k256 {
+        pub use crate::secp256::backend::k1::k256::{
+            public_key,
+            recover,
+            sign,
+            verify,
+        };
+    }
+    /// The `libsecp256k1` (`std`) backend.
+    pub mod secp256k1 {
+        pub use crate::secp256::backend::k1::secp256k1::{
+            public_key,
+            recover,
+            sign,
+            verify,
+        };
+    }
+}
